@@ -251,11 +251,55 @@ func Ite(c, a, b *Node) *Node {
 func Select(arr, idx *Node) *Node {
 	// (Array K V)
 	v := arrayValSort(arr.Sort)
-	// simplify select(store(a,i,v),i)
-	if arr.Op == "store" && arr.Args[1] == idx {
-		return arr.Args[2]
+	// simplify select(store(a,i,v),j): i == j → v; i, j provably distinct (same base, different
+	// constant offsets, or distinct literals) → look through the store
+	for arr.Op == "store" {
+		if arr.Args[1] == idx {
+			return arr.Args[2]
+		}
+		if distinctOffsets(arr.Args[1], idx) {
+			arr = arr.Args[0]
+			continue
+		}
+		break
+	}
+	if arr.Op == "ite" && (arr.Args[1].Op == "store" || arr.Args[2].Op == "store") && selectDepth < 6 {
+		selectDepth++
+		a, b := Select(arr.Args[1], idx), Select(arr.Args[2], idx)
+		selectDepth--
+		return Ite(arr.Args[0], a, b)
 	}
 	return TS.mk("select", v, arr, idx)
+}
+
+var selectDepth int
+
+// distinctOffsets: a = (+ base k1), b = (+ base k2) with k1 != k2, or two different integer literals.
+func distinctOffsets(a, b *Node) bool {
+	split := func(n *Node) (*Node, string, bool) {
+		if n.Op == "+" && len(n.Args) == 2 && len(n.Args[1].Args) == 0 && n.Args[1].Sort == "Int" && isDigits(n.Args[1].Op) {
+			return n.Args[0], n.Args[1].Op, true
+		}
+		if len(n.Args) == 0 && n.Sort == "Int" && isDigits(n.Op) {
+			return nil, n.Op, true
+		}
+		return nil, "", false
+	}
+	ba, ka, ok1 := split(a)
+	bb, kb, ok2 := split(b)
+	return ok1 && ok2 && ba == bb && ka != kb
+}
+
+func isDigits(s string) bool {
+	if s == "" {
+		return false
+	}
+	for _, c := range s {
+		if c < '0' || c > '9' {
+			return false
+		}
+	}
+	return true
 }
 
 func Store(arr, idx, val *Node) *Node {
